@@ -261,6 +261,7 @@ class Unit:
         ret_name = 'r'
         use_lemmas = None
         mutself = False
+        unmut = []
         rename = None
         sig_override = None
         mode = 'clauses'
@@ -272,10 +273,12 @@ class Unit:
                 mode = 'loop'
                 cur = loops.setdefault(int(m.group(1)), [])
                 continue
-            m = re.match(r'proof-(after|before)\s+/(.*)/(?:#(-?\d+))?\s*$', t)
+            m = re.match(r'(?:proof|ghost)-(after|before)\s+/(.*)/(?:#(-?\d+))?\s*$', t)
             if m:
                 mode = 'proof'
                 cur = []
+                if t.startswith('ghost-'):
+                    cur.append('@@GHOST@@')      # raw `let ghost` lines: not wrapped in proof { }
                 proofs.append((m.group(2), cur, m.group(1), int(m.group(3) or 0)))
                 continue
             if t.startswith('sub '):
@@ -287,6 +290,10 @@ class Unit:
                 continue
             if t == 'mutself':
                 mutself = True
+                continue
+            m = re.match(r'unmut\s+(\w+)\s*$', t)
+            if m:
+                unmut.append(m.group(1))
                 continue
             m = re.match(r'use-lemmas\s+(.*)$', t)
             if m:
@@ -332,6 +339,14 @@ class Unit:
         if rename:
             head = re.sub(r'\bfn\s+%s\b' % re.escape(name), 'fn ' + rename, head, count=1)
         body = txt[body_open:]
+        for pname in unmut:
+            # R10: `mut p: T` by-value parameter -> immutable parameter `p0` + local `let mut p = p0;`
+            # (identical semantics; lets the contract refer to the ENTRY value of p by name)
+            head, k = re.subn(r'\bmut\s+%s\s*:' % re.escape(pname), pname + '0:', head, count=1)
+            if k != 1:
+                raise X.AnchorError('fn %s: unmut %s: no such `mut` parameter' % (name, pname))
+            body = '{ let mut %s = %s0;' % (pname, pname) + body[1:]
+            rw.bump('R10')
         if use_lemmas:
             # R7: ghost-only `broadcast use` at the top of the body (erased by Verus)
             body = '{ broadcast use ' + use_lemmas + ';' + body[1:]
@@ -414,10 +429,16 @@ class Unit:
             else:
                 emit(buf)
                 buf = ''
-                emit('proof {')
-                for ln in lines:
-                    emit(ln)
-                emit('}')
+                if lines and lines[0] == '@@GHOST@@':
+                    for ln in lines[1:]:
+                        if not re.match(r'\s*let ghost\b', ln):
+                            raise X.AnchorError('ghost-before/after blocks may only contain `let ghost` lines')
+                        emit(ln)
+                else:
+                    emit('proof {')
+                    for ln in lines:
+                        emit(ln)
+                    emit('}')
         buf += body[pos:]
         for ln in buf.split('\n'):
             emit(ln)
